@@ -14,6 +14,18 @@ Monitors work from their *own* record of the column window A (built from the op 
 from the model.  QR involves sqrt / division, so there is no exact regime: tolerances are relative
 1e-10 on well-conditioned windows, loosened or skipped on nearly dependent ones (counted in the
 evidence).  The affine-combination identity of Anderson is recomputed in exact rationals.
+
+Mutants tried on a private copy (VERIF_REPO=/tmp/repo_c10), all reported (exit 1):
+  r_succ `<`→`<=`; r_pred `m()-1`→`m()`; remove: `r_idx_start = r_succ(r_idx_end)` / start not advanced;
+  add: `r_idx_end` not advanced; CircularIndexIterator ++ wraps to 1 / -- wraps to max     -> proofs
+      (C10Basic / C10Add / C10Remove stop compiling on the regenerated Gen) + ring monitors + crash
+  dropped / transposed `applyOnTheRight` on Q; inner loop starting at c instead of r_succ(c);
+  `r(i) += s`→`r(i) = s` in the reorthogonalisation pass; scale_R `topRows(i)`                  -> shape check /
+      proofs + correspondence + ‖QR−A‖ and normal-equation monitors
+  back-substitution `-=`→`+=`; threshold `<`→`<=`                                             -> shape check /
+      C10Solve proofs + correspondence + row-of-Rx=Qᵀb monitor
+  Anderson α: `γ(i)−γ(0)`, `1−γ(0)`; `G.col(ring_head()) = g`; reset copy guard inverted; `std::max(n, memory)`
+      -> C10Anderson / C10History proofs or shape check + correspondence + affine / alignment / size monitors
 """
 import math
 import os
@@ -607,9 +619,35 @@ def extra_stage(rep, broken, exe, tier):
 
 
 def replay(r):
-    """`checks/replay.py <file>`: the recorded op needs its prefix; re-run the whole seeded stream."""
-    os.environ['VERIF_SEED'] = str(r.get('seed', 1))
-    return main(['c10.py', '--tier', r.get('tier', 'quick')])
+    """`checks/replay.py <file>`: the recorded op needs its prefix (the objects are stateful), so the
+    seeded stream is regenerated, cut after the recorded index and run through the real code and
+    the monitor again."""
+    import random
+    tier = r.get('tier', 'quick')
+    sd = int(r.get('seed', 1))
+    idx = (r.get('payload') or {}).get('index')
+    if idx is None or str(r.get('what', '')).startswith('search'):
+        os.environ['VERIF_SEED'] = str(sd)
+        return main(['c10.py', '--tier', tier])
+    rng = random.Random(sd * 1000003 + (17 if tier == 'thorough' else 0))
+    ops = gen_ops(rng, N_THOROUGH if tier == 'thorough' else N_QUICK)[:idx + 1]
+    exe, log = C.build_exe('c10', [os.path.join(C.VERIF, 'harness', 'c10.cpp')])
+    if exe is None:
+        print('harness does not compile:', log[-800:])
+        return 1
+    hout, rc, err = C.run_lines(exe, ops)
+    st = {}
+    res = None
+    for o, h in zip(ops, hout):
+        res = monitor(o, h, st)
+    print('op      :', ops[-1][:400])
+    print('impl out:', (hout[-1] if len(hout) == len(ops) else f'<crash rc={rc} {err[-200:]}>')[:400])
+    print('monitor :', res)
+    return 1 if res and not (isinstance(res, tuple) and res[1] == KEY_DEP) else 0
+
+
+N_QUICK = (8, 8, 250, 250)
+N_THOROUGH = (9, 11, 6000, 6000)
 
 
 def main(argv):
@@ -623,7 +661,7 @@ def main(argv):
                        'Driver/C10.lean'],
         harness_name='c10', harness_sources=[os.path.join(C.VERIF, 'harness', 'c10.cpp')],
         gen_ops=gen_ops, monitor=monitor, nontrivial=nontrivial, extra_stage=extra_stage,
-        n_quick=(8, 8, 250, 250), n_thorough=(9, 11, 6000, 6000), search_factor=2,
+        n_quick=N_QUICK, n_thorough=N_THOROUGH, search_factor=2,
         trusted_base=[
             'Lean 4.33 kernel + Mathlib (axioms: propext, Classical.choice, Quot.sound)',
             'gen/cxxparse.py + gen/lean_emit.py + gen/gen_c10.py (translator: r_succ/r_pred, ring_head/tail, '
